@@ -430,3 +430,143 @@ for _be, _tier, _to in ((3, 'quick', 600), (4, 'thorough', 1800)):
     inst='EdgeTy with has_value (edge data moved with the edge), no NUMA options; temporary arrays = locals with arbitrary initial content',
     says='BOUNDED: in-place transpose of every graph with <= 3 nodes and <= %d edges,' % _be + ' the iterations of every parallel loop taken in every order: the index array is a valid CSR index again and the graph presents exactly the reversed edge multiset with each edge\'s data (the atomic counters hand every edge its own slot of its new source\'s range)',
     trusted=['galois::do_all runs every iteration exactly once (C03/C04); iterations are interleaved at iteration granularity only (each shared access inside is one atomic read-modify-write or touches a slot no other iteration touches)', 'allocation block dropped; edgeDataCopy inlined by rule (non-void overload)']))
+
+# ---- in-edges of LC_CSR_CSC_Graph (bounded stand-ins) ---------------------------------------------------------------------------------------
+# constructIncomingEdges = zero the counters; determineInEdgeIndices (count, prefix sum, copy); determineInEdgeDestAndData (start offsets,
+# scatter with atomic counters).  Instantiation: EdgeDataByValue = false, non-void EdgeTy: every in-edge stores the POSITION of its out-edge,
+# so the exact statement is: in-slot k of node d  |->  inEdgeData[k] is a bijection onto the out-edge slots, the out-edge it names ends in d
+# and starts at inEdgeDst[k].  Same lowering of galois::do_all as for transpose (iterations in every order).
+CSCF = 'libgalois/include/galois/graphs/LC_CSR_CSC_Graph.h'
+CSCW = r'class LC_CSR_CSC_Graph\b'
+CSCP = """
+struct CSC { uint32_t numNodes; uint64_t numEdges; uint64_t* edgeIndData; uint32_t* edgeDst; uint64_t* inEdgeIndData; uint32_t* inEdgeDst; uint64_t* inEdgeData; };
+#define BN 3u
+/* BE = edge bound, from -DBE= */
+uint64_t IDXA[BN]; uint32_t DSTA[BE]; uint64_t OIDX[BN]; uint32_t ODST[BE];
+uint64_t INIDX[BN]; uint32_t INDST[BE]; uint64_t INDAT[BE]; uint64_t DBUF[BN];
+struct CSC G;
+uint32_t nn; uint64_t ne;
+uint32_t nondet_u32(void); uint64_t nondet_u64(void);
+#define gv_sync_add_and_fetch(p, v) (*(p) += (v))
+#define gv_sync_fetch_and_add(p, v) ((*(p) += (v)) - (v))
+static inline void gv_make_perm(uint64_t* perm, uint64_t a, uint64_t b)
+{ for (unsigned i = 0; i < BE; ++i) { perm[i] = nondet_u64(); __CPROVER_assume(a + i >= b || (a <= perm[i] && perm[i] < b)); for (unsigned j = 0; j < i; ++j) __CPROVER_assume(a + i >= b || perm[i] != perm[j]); } }
+static inline uint32_t src_of(const uint64_t* idx, uint32_t n_, uint64_t e) { uint32_t s = 0; for (uint32_t n = 0; n < BN; ++n) if (n < n_ && idx[n] <= e) s = n + 1; return s; }
+/* an arbitrary valid CSR out-graph; freshly allocated in-arrays with arbitrary content */
+static inline void gv_any_graph(void)
+{ nn = nondet_u32(); __CPROVER_assume(nn <= BN); ne = nondet_u64(); __CPROVER_assume(ne <= BE && (nn > 0 || ne == 0));
+  for (unsigned n = 0; n < BN; ++n) { IDXA[n] = nondet_u64(); if (n < nn) { __CPROVER_assume(IDXA[n] <= ne && (n == 0 || IDXA[n - 1] <= IDXA[n])); if (n == nn - 1) __CPROVER_assume(IDXA[n] == ne); } OIDX[n] = IDXA[n]; INIDX[n] = nondet_u64(); DBUF[n] = nondet_u64(); }
+  for (unsigned e = 0; e < BE; ++e) { DSTA[e] = nondet_u32(); if (e < ne) __CPROVER_assume(DSTA[e] < nn); ODST[e] = DSTA[e]; INDST[e] = nondet_u32(); INDAT[e] = nondet_u64(); }
+  G.numNodes = nn; G.numEdges = ne; G.edgeIndData = IDXA; G.edgeDst = DSTA; G.inEdgeIndData = INIDX; G.inEdgeDst = INDST; G.inEdgeData = INDAT; }
+static inline uint64_t indeg_upto(uint32_t n) { uint64_t c = 0; for (unsigned e = 0; e < BE; ++e) if (e < ne && ODST[e] <= n) c++; return c; }
+static inline void gv_check_out_unchanged(void)
+{ __CPROVER_assert(G.numNodes == nn && G.numEdges == ne, "node and edge counts unchanged");
+  for (unsigned n = 0; n < BN; ++n) if (n < nn) __CPROVER_assert(IDXA[n] == OIDX[n], "out-edge index untouched");
+  for (unsigned e = 0; e < BE; ++e) if (e < ne) __CPROVER_assert(DSTA[e] == ODST[e], "out-edge destinations untouched"); }
+static inline void gv_check_in_index(void)
+{ for (unsigned n = 0; n < BN; ++n) if (n < nn) __CPROVER_assert(INIDX[n] == indeg_upto(n), "in-edge index entry n = number of edges whose destination is <= n"); }
+static inline void gv_check_in_edges(void)
+{ for (unsigned k = 0; k < BE; ++k) if (k < ne) {
+    uint32_t d = src_of(INIDX, nn, k); uint64_t o = INDAT[k];
+    __CPROVER_assert(o < ne, "an in-edge names an existing out-edge slot");
+    if (o < ne) { __CPROVER_assert(ODST[o] == d, "in-slot k of node d names an out-edge that ends in d");
+                  __CPROVER_assert(src_of(OIDX, nn, o) == INDST[k], "the in-edge's other end is the source of that out-edge"); }
+    for (unsigned k2 = 0; k2 < k; ++k2) __CPROVER_assert(INDAT[k2] != o, "no out-edge is presented twice as an in-edge (bijection)");
+  } }
+void CSC_createEdgeData(struct CSC* self, const uint64_t e_new, const uint64_t e);
+void CSC_determineInEdgeIndices(struct CSC* self, uint64_t* dataBuffer);
+void CSC_determineInEdgeDestAndData(struct CSC* self, uint64_t* dataBuffer);
+void CSC_constructIncomingEdges(struct CSC* self);
+"""
+DO_ALL2 = rx(r'galois::do_all\(\s*galois::iterate\(UINT64_C\((\d+)\), (\w+)\),\s*\[&\]\(uint64_t (\w+)\) \{(.*?)\}(?:,\s*galois::no_stats\(\), galois::loopname\("\w+"\))?\);',
+             r'{ uint64_t gv_perm[BE]; const uint64_t gv_a = \1, gv_b = \2; __CPROVER_assert(gv_b <= gv_a || gv_b - gv_a <= BE, "bound"); gv_make_perm(gv_perm, gv_a, gv_b); for (uint64_t gv_i = gv_a; gv_i < gv_b; ++gv_i) { const uint64_t \3 = gv_perm[gv_i - gv_a]; \4 } }', 0, flags=re.S)      # min 0: createEdgeData has no loop; an unlowered do_all does not compile as C (= undecided)
+CSC_LOWER = [rx(r'BaseGraph::', '', 0), rx(r'galois::StatTimer \w+\([^;]*;\s*\w+\.start\(\);', '', 0), rx(r'\w+Timer\.stop\(\);', '', 0),
+             rx(r'EdgeIndData dataBuffer;', 'uint64_t dataBuffer[BN];', 0), rx(r'\w+\.allocateInterleaved\([^;]*\);', ';', 0),
+             DO_ALL2, rx(r'!std::is_void<EdgeTy>::value', '1', 0),
+             rx(r'__sync_add_and_fetch\(', 'gv_sync_add_and_fetch(', 0), rx(r'__sync_fetch_and_add\(', 'gv_sync_fetch_and_add(', 0),
+             rx(r'\bauto dst\b', 'uint32_t dst', 0), rx(r'\bauto e_new\b', 'uint64_t e_new', 0),
+             rx(r'(?<![\w.>])createEdgeData\(', 'CSC_createEdgeData(self, ', 0),
+             rx(r'(?<![\w.>])determineInEdgeIndices\(', 'CSC_determineInEdgeIndices(self, ', 0), rx(r'(?<![\w.>])determineInEdgeDestAndData\(', 'CSC_determineInEdgeDestAndData(self, ', 0),
+             rx(r'(?<![\w.>])(edgeIndData|edgeDst|inEdgeIndData|inEdgeDst|inEdgeData)\[', r'self->\1[', 0),
+             rx(r'UINT64_C\((\d+)\)', r'\1ull', 0), members(['numNodes', 'numEdges'], minimum=0)]
+_CSC_TRUSTED = ['galois::do_all runs every iteration exactly once (C03/C04); iterations interleave at iteration granularity only', 'allocation calls dropped: arrays supplied by the harness with arbitrary content']
+for _be, _tier, _to in ((4, 'quick', 900), (5, 'thorough', 3000)):
+    _sfx = '_e%d' % _be
+    _kw = dict(kind='bounded', unwind=_be + 2, dfcc=False, defines=['BE=%du' % _be], tier=_tier, src=CSCF, within=CSCW, contract='', prelude=[CSCP], lower=CSC_LOWER, reach=True,
+               no_flags=['--conversion-check'], timeout=_to, inst='EdgeDataByValue = false, non-void EdgeTy (in-edges store the position of their out-edge)', trusted=_CSC_TRUSTED)
+    _bd = 'numNodes <= 3, numEdges <= %d (all such graphs), every do_all in every order of its iterations, loops unwound completely' % _be
+    UNITS.append(Unit(name='CSC_createEdgeData' + _sfx, anchor=r'void createEdgeData\(const uint64_t e_new, const uint64_t e\)', occurrence=1, of=2,
+                      proto='void CSC_createEdgeData(struct CSC* self, const uint64_t e_new, const uint64_t e)', bound_desc=_bd,
+                      harness='  gv_any_graph();\n  uint64_t k = nondet_u64(), e = nondet_u64(); __CPROVER_assume(k < ne && e < ne);\n  CSC_createEdgeData(&G, k, e);\n  __CPROVER_assert(INDAT[k] == e, "in-edge k names out-edge e");\n  gv_check_out_unchanged();\n',
+                      says='BOUNDED: createEdgeData (by-reference overload): in-edge slot e_new records the position e of its out-edge', **_kw))
+    UNITS.append(Unit(name='CSC_determineInEdgeIndices' + _sfx, anchor=r'void determineInEdgeIndices\(EdgeIndData& dataBuffer\)',
+                      proto='void CSC_determineInEdgeIndices(struct CSC* self, uint64_t* dataBuffer)', bound_desc=_bd,
+                      harness='  gv_any_graph();\n  for (unsigned n = 0; n < BN; ++n) DBUF[n] = 0;      /* constructIncomingEdges zeroes the counters first */\n  CSC_determineInEdgeIndices(&G, DBUF);\n  gv_check_in_index();\n  for (unsigned n = 0; n < BN; ++n) if (n < nn) __CPROVER_assert(DBUF[n] == INIDX[n], "the buffer holds the same prefix sums");\n  gv_check_out_unchanged();\n',
+                      says='BOUNDED: determineInEdgeIndices from zeroed counters: in-edge index entry n = number of edges with destination <= n (prefix sum of the in-degrees), out-edges untouched', **_kw))
+    UNITS.append(Unit(name='CSC_determineInEdgeDestAndData' + _sfx, anchor=r'void determineInEdgeDestAndData\(EdgeIndData& dataBuffer\)',
+                      proto='void CSC_determineInEdgeDestAndData(struct CSC* self, uint64_t* dataBuffer)', bound_desc=_bd, inline=['CSC_createEdgeData' + _sfx],
+                      harness='  gv_any_graph();\n  for (unsigned n = 0; n < BN; ++n) if (n < nn) INIDX[n] = indeg_upto(n);      /* what determineInEdgeIndices leaves */\n  CSC_determineInEdgeDestAndData(&G, DBUF);\n  gv_check_in_index();\n  gv_check_in_edges();\n  gv_check_out_unchanged();\n',
+                      says='BOUNDED: determineInEdgeDestAndData on a correct in-edge index and an arbitrary buffer: the in-edge slots are a bijection onto the out-edge slots, each in-edge of node d names an out-edge ending in d and carries that edge\'s source', **_kw))
+    UNITS.append(Unit(name='CSC_constructIncomingEdges' + _sfx, anchor=r'void constructIncomingEdges\(\)',
+                      proto='void CSC_constructIncomingEdges(struct CSC* self)', bound_desc=_bd, inline=['CSC_createEdgeData' + _sfx, 'CSC_determineInEdgeIndices' + _sfx, 'CSC_determineInEdgeDestAndData' + _sfx],
+                      harness='  gv_any_graph();\n  CSC_constructIncomingEdges(&G);\n  gv_check_in_index();\n  gv_check_in_edges();\n  gv_check_out_unchanged();\n',
+                      says='BOUNDED: constructIncomingEdges end to end (real bodies of the three helpers inlined): the in-edge view presents exactly the reversed out-edges -- in-edge index = prefix sums of the in-degrees, in-slots <-> out-slots bijective with matching end points -- for every graph with <= 3 nodes and <= %d edges' % _be, **_kw))
+
+# ---- edge sorting: the proxy reference std::sort moves edges through (Details.h) ------------------------------------------------------------
+# sortEdges* hand std::sort a range of EdgeSortIterator; every move std::sort makes goes through EdgeSortReference::operator=, operator*
+# and swap().  Under contract: each of them moves the (destination, data) PAIR of a slot as a unit and touches no other slot (ghost probe),
+# so whatever sequence of moves the algorithm makes keeps the node's edges a permutation of the same (destination, data) multiset.
+DET = 'libgalois/include/galois/graphs/Details.h'
+ESP = '''
+struct ESV { uint64_t val; uint32_t rawDst; uint32_t dst; };      /* EdgeSortValue: StrictObject<EdgeTy> value, rawDst, dst */
+struct ESR { uint64_t at; uint32_t* edgeDst; uint64_t* edgeData; };
+uint64_t g_n;        /* ghost: number of edge slots of the two arrays */
+uint64_t g_k;        /* ghost probe: an arbitrary slot, never written */
+uint32_t __CPROVER_uninterpreted_conv(uint32_t);      /* GraphNodeConverter()(raw destination): a pure function (identity for LC_CSR_Graph) */
+#define GV_CONV(x) __CPROVER_uninterpreted_conv(x)
+#define LA_SET(arr, i, v) ((arr)[i] = (v))
+#define LA_AT(arr, i) ((arr)[i])
+/* EdgeSortValue(d, rd, v) : Super(v), rawDst(rd), dst(d) -- the member-initialiser list, restated (trusted) */
+static inline struct ESV ESV_make(uint32_t d, uint32_t rd, uint64_t v) { struct ESV r; r.val = v; r.rawDst = rd; r.dst = d; return r; }
+#define ESR_OK(r) (g_n >= 1 && g_n <= ((uint64_t)1 << 32) && (r)->at < g_n && __CPROVER_is_fresh((r)->edgeDst, g_n * sizeof(uint32_t)) && __CPROVER_is_fresh((r)->edgeData, g_n * sizeof(uint64_t)))
+'''
+ES_LOWER = [rx(r'(?<![\w.>])(edgeDst|edgeData)->set\(', r'LA_SET(self->\1, ', 0), rx(r'(?<![\w.>])(edgeDst|edgeData)->at\(', r'LA_AT(self->\1, ', 0),
+            rx(r'(?<![\w.>])at\b(?!\s*\()', 'self->at', 0), rx(r'\bx\.rawDst\b', 'x->rawDst', 0), rx(r'\bx\.get\(\)', 'x->val', 0), rx(r'\bx\.at\b', 'x->at', 0),
+            rx(r'return \*this;', 'return;', 0),
+            rx(r'return EdgeSortValue<GraphNode, EdgeTy>\(\s*GraphNodeConverter\(\)\(', 'return ESV_make(GV_CONV(', 0)]
+ESW = r'struct EdgeSortReference\b'
+UNITS.append(Unit(
+    name='ESR_assign_value', src=DET, within=ESW, anchor=r'EdgeSortReference operator=\(const EdgeSortValue<GraphNode, EdgeTy>& x\)', proto='void ESR_assign_value(struct ESR* self, const struct ESV* x)',
+    contract='''__CPROVER_requires(__CPROVER_is_fresh(self, sizeof(*self)) && __CPROVER_is_fresh(x, sizeof(*x)) && ESR_OK(self) && g_k < g_n)
+__CPROVER_ensures(self->edgeDst[self->at] == x->rawDst && self->edgeData[self->at] == x->val)
+__CPROVER_ensures(g_k != self->at ==> (self->edgeDst[g_k] == __CPROVER_old(self->edgeDst[g_k]) && self->edgeData[g_k] == __CPROVER_old(self->edgeData[g_k])))
+__CPROVER_assigns(__CPROVER_object_whole(self->edgeDst), __CPROVER_object_whole(self->edgeData))''',
+    prelude=[ESP], lower=ES_LOWER, no_flags=['--conversion-check'],
+    says='reference = value: slot `at` receives the value\'s raw destination AND its data; no other slot changes'))
+UNITS.append(Unit(
+    name='ESR_assign_ref', src=DET, within=ESW, anchor=r'EdgeSortReference operator=\(const EdgeSortReference& x\)', proto='void ESR_assign_ref(struct ESR* self, uint64_t x_at)',
+    contract='''__CPROVER_requires(__CPROVER_is_fresh(self, sizeof(*self)) && ESR_OK(self) && g_k < g_n && x_at < g_n)
+__CPROVER_ensures(self->edgeDst[self->at] == __CPROVER_old(self->edgeDst[x_at]) && self->edgeData[self->at] == __CPROVER_old(self->edgeData[x_at]))
+__CPROVER_ensures(g_k != self->at ==> (self->edgeDst[g_k] == __CPROVER_old(self->edgeDst[g_k]) && self->edgeData[g_k] == __CPROVER_old(self->edgeData[g_k])))
+__CPROVER_assigns(__CPROVER_object_whole(self->edgeDst), __CPROVER_object_whole(self->edgeData))''',
+    prelude=[ESP], lower=[rx(r'\bx\.at\b', 'x_at', 2, 2)] + ES_LOWER, no_flags=['--conversion-check'],
+    says='reference = reference (same arrays): slot `at` receives the pair of slot x.at; no other slot changes'))
+UNITS.append(Unit(
+    name='ESR_deref', src=DET, within=ESW, anchor=r'EdgeSortValue<GraphNode, EdgeTy> operator\*\(\) const', proto='struct ESV ESR_deref(const struct ESR* self)',
+    contract='''__CPROVER_requires(__CPROVER_is_fresh(self, sizeof(*self)) && ESR_OK(self))
+__CPROVER_ensures(__CPROVER_return_value.rawDst == self->edgeDst[self->at] && __CPROVER_return_value.dst == GV_CONV(self->edgeDst[self->at]) && __CPROVER_return_value.val == self->edgeData[self->at])
+__CPROVER_assigns()''',
+    prelude=[ESP], lower=ES_LOWER, no_flags=['--conversion-check'],
+    says='*reference: the value carries the slot\'s raw destination, its converted destination and its data (the pair of ONE slot)'))
+UNITS.append(Unit(
+    name='ESR_swap', src=DET, anchor=r'void swap\(EdgeSortReference<A, B, C, D, E> a,\s*EdgeSortReference<A, B, C, D, E> b\)', proto='void ESR_swap(struct ESR* a, struct ESR* b)',
+    contract='''__CPROVER_requires(__CPROVER_is_fresh(a, sizeof(*a)) && __CPROVER_is_fresh(b, sizeof(*b)) && ESR_OK(a) && b->at < g_n && g_k < g_n)
+__CPROVER_ensures(a->edgeDst[a->at] == __CPROVER_old(a->edgeDst[b->at]) && a->edgeData[a->at] == __CPROVER_old(a->edgeData[b->at]))
+__CPROVER_ensures(a->edgeDst[b->at] == __CPROVER_old(a->edgeDst[a->at]) && a->edgeData[b->at] == __CPROVER_old(a->edgeData[a->at]))
+__CPROVER_ensures((g_k != a->at && g_k != b->at) ==> (a->edgeDst[g_k] == __CPROVER_old(a->edgeDst[g_k]) && a->edgeData[g_k] == __CPROVER_old(a->edgeData[g_k])))
+__CPROVER_assigns(__CPROVER_object_whole(a->edgeDst), __CPROVER_object_whole(a->edgeData), b->edgeDst, b->edgeData)''',      # b's two pointers: the ghost prefix below (by-value copies in the real code)
+    prelude=[ESP], inline=['ESR_deref', 'ESR_assign_value'],
+    ghost_prefix='b->edgeDst = a->edgeDst; b->edgeData = a->edgeData;   /* both references point into the same graph (set here, not assumed: value sets) */',
+    lower=[rx(r'auto (\w+)\s*= \*(a|b);', r'struct ESV \1 = ESR_deref(\2);', 1), rx(r'(?<![\w.>])(a|b)\s*= (\w+);', r'ESR_assign_value(\1, &\2);', 1)],
+    no_flags=['--conversion-check'],
+    says='swap(a, b) of two proxy references into the same arrays (real bodies of operator* and operator= inlined): the two slots exchange their (destination, data) pairs, every other slot is unchanged -- also when a and b name the same slot'))
